@@ -21,6 +21,7 @@ def step (st : DState) (line : String) : DState × Option String :=
   | [] => (st, none)
   | op :: args =>
     if op == "reset" then ({}, none) else
+    let st := Search.observe st op args impl
     match Version.handle op args impl with
     | some o => (st, some o.render)
     | none =>
